@@ -229,6 +229,25 @@ PROPS = {
                       'own maps',
         'level_note': 'lattice values only; finite-difference oracle accuracy 1e-7..1e-6',
     },
+    'C20': {
+        'sources': ['src/containers/boundingbox/AxisAlignedBoundingBox.cpp', 'src/containers/boundingbox/OrientedBoundingBox.cpp',
+                    'src/pointset/algorithms/PointSetPreconditioner.cpp'],
+        'harness': 'c20_bounding.cpp',
+        'flavour': 'plain',
+        'level': 'exploration',
+        'engine': 'lattice',
+        'rule': 'full lattices: (scalar x DIM x centre x half extents incl. zero x rotation x box-frame query lattice on '
+                'faces/edges/corners and 2^-20 inside/outside) for AABB/OBB containment and the enclosing box; all pairs '
+                'of intervals from a 5-value bound lattice; (8 point types x size x octant x offset x shape) for the '
+                'preconditioner extents; Array/Matrix containers for min/max/mean. non-trivial = query within 8 ulp of a '
+                'face, every enclosing-box / interval / container case, point sets with a negative octant.',
+        'assumptions': ['a query point within 8 ulp(scale) of a face may get either verdict (rounding of p-c and R^T), except for centre 0 / identity rotation where the comparison is exact'],
+        'tiers': {'quick': {'deadline': 300}, 'thorough': {'deadline': 3000}},
+        'technique': 'bounded-exhaustive lattice enumeration on the real code, definitional oracle in long double',
+        'level_text': 'complete enumeration of the stated centre/extent/rotation/query lattices for both box kinds, of all '
+                      'interval pairs over a bound lattice, and of point sets in every octant for all eight point types',
+        'level_note': 'lattice values only',
+    },
 }
 
 ENGINES = [
